@@ -1097,11 +1097,9 @@ type FailOut struct {
 	Msg, File, Finding string
 }
 
-// DisposeFinding maps a failure to the id of a recorded finding (or "").
+// DisposeFinding maps a failure to the id of a recorded finding (or ""): none is recorded for the
+// disposal engine since fix 9a199f1.
 func DisposeFinding(c DCase, msg string) string {
-	if c.Trigger == "idle-parent" && !c.Handlers && strings.HasPrefix(msg, "disposal (idle-parent) never completes") {
-		return "C13-parent-cancel-without-handlers"
-	}
 	return ""
 }
 
